@@ -9,10 +9,14 @@ def random_problem(rng, d=None, n=None, noise="err"):
     n = n or int(rng.integers(2, 13))
     x = rng.normal(size=(n, d)) * 10 ** rng.uniform(-0.5, 0.5) + rng.normal() * 3
     y = np.sin(x.sum(axis=1)) + 0.3 * rng.normal(size=n) + rng.normal() * 2
-    kname = str(rng.choice(["SE", "RQ", "SE+WN", "RQ+SE", "CP", "SE+HN"]))
+    kname = str(rng.choice(["SE", "RQ", "SE+WN", "RQ+SE", "CP", "SE+HN", "CP3", "CP4"]))
     mk = {"SE": SquaredExponential, "RQ": RationalQuadratic, "WN": WhiteNoise, "HN": HeteroscedasticNoise}
     if kname == "CP":
         K = ChangePoint(kernels=[SquaredExponential, RationalQuadratic], axis=0)
+    elif kname == "CP3":
+        K = ChangePoint(kernels=[SquaredExponential, RationalQuadratic, SquaredExponential], axis=int(rng.integers(0, d)))
+    elif kname == "CP4":
+        K = ChangePoint(kernels=[RationalQuadratic, SquaredExponential, SquaredExponential, RationalQuadratic], axis=0)
     else:
         parts = kname.split("+")
         K = mk[parts[0]]()
@@ -40,13 +44,59 @@ def hyperpars_for(gp_or_parts, rng, x):
     return np.array(th)
 
 
+def ref_cov(K, u, v, theta, training=False):
+    """the documented covariance function evaluated pairwise with formulas written here (none of the library's
+    kernel code is used): squared-exponential, rational-quadratic, white / heteroscedastic noise (a diagonal on
+    the training points, zero between any other points), sums, and change-points with logistic weights."""
+    name = type(K).__name__
+    theta = np.asarray(theta, dtype=float)
+    nu, nv = len(u), len(v)
+    if name in ("SquaredExponential", "RationalQuadratic"):
+        off = 1 if name == "SquaredExponential" else 2
+        a, L = np.exp(theta[0]), np.exp(theta[off:])
+        out = np.zeros((nu, nv))
+        for i in range(nu):
+            for j in range(nv):
+                z = 0.5 * float(np.sum(((u[i] - v[j]) / L) ** 2))
+                out[i, j] = a * a * (np.exp(-z) if off == 1 else (1.0 + z / np.exp(theta[1])) ** (-np.exp(theta[1])))
+        if training:
+            out = out + a * a * 1e-12 * np.eye(nu)       # the documented jitter of the training matrix
+        return out
+    if name == "WhiteNoise":
+        return np.exp(2 * theta[0]) * np.eye(nu) if training else np.zeros((nu, nv))
+    if name == "HeteroscedasticNoise":
+        return np.diag(np.exp(2 * theta)) if training else np.zeros((nu, nv))
+    if name == "CompositeCovariance":
+        out, k0 = np.zeros((nu, nv)), 0
+        for comp in K.components:
+            out = out + ref_cov(comp, u, v, theta[k0:k0 + comp.n_params], training)
+            k0 += comp.n_params
+        return out
+    if name == "ChangePoint":
+        m = K.n_kernels
+        counts = [c.n_params for c in K.cov]
+        starts = np.concatenate([[0], np.cumsum(counts)])
+        cp = theta[starts[-1]:].reshape(m - 1, 2)          # (location, width) of each change-point
+        lg = lambda x, c: 1.0 / (1.0 + np.exp(-(x - c[0]) / c[1]))
+        out = np.zeros((nu, nv))
+        for i in range(m):
+            wu, wv = np.ones(nu), np.ones(nv)
+            if i > 0:                                       # switched on by the change-point before it
+                wu, wv = wu * lg(u[:, K.axis], cp[i - 1]), wv * lg(v[:, K.axis], cp[i - 1])
+            if i < m - 1:                                   # switched off by the change-point after it
+                wu, wv = wu * (1 - lg(u[:, K.axis], cp[i])), wv * (1 - lg(v[:, K.axis], cp[i]))
+            out = out + ref_cov(K.cov[i], u, v, theta[starts[i]:starts[i + 1]], training) * np.outer(wu, wv)
+        return out
+    raise ValueError(name)
+
+
 def closed_form(gp, q):
-    """exact GP posterior at query rows q from plain linear algebra (independent of the regressor's code path)"""
+    """exact GP posterior at query rows q from plain linear algebra and independently written kernels / means"""
     th_c, th_m = gp.cov_hyperpars, gp.mean_hyperpars
-    Kxx = gp.cov.build_covariance(th_c) + gp.sig
+    Kxx = ref_cov(gp.cov, gp.x, gp.x, th_c, training=True) + gp.sig
     r = gp.y - gp.mean.build_mean(th_m)
-    Kqx = gp.cov(q, gp.x, th_c)
-    Kqq = gp.cov(q, q, th_c)
+    Kqx = ref_cov(gp.cov, q, gp.x, th_c)
+    Kqq = ref_cov(gp.cov, q, q, th_c)
     sol = np.linalg.solve(Kxx, np.column_stack([r, Kqx.T]))
     mu = np.array([gp.mean(p, th_m) for p in q]) + Kqx @ sol[:, 0]
     cov = Kqq - Kqx @ sol[:, 1:]
